@@ -22,7 +22,7 @@ from dataclasses import dataclass, replace
 from .common import cbool, civl, clist, coz, cz, ensure_repo_import
 
 calgebra = ensure_repo_import()
-from calgebra import Interval, buffer, flatten, merge_within, timeline  # noqa: E402
+from calgebra import Interval, Timeline, buffer, flatten, merge_within, timeline  # noqa: E402
 from calgebra import properties as P  # noqa: E402
 
 
@@ -184,6 +184,18 @@ def build(t, env=None, leaf_hook=None, _memo=None):
     return obj
 
 
+class _UserTimeline(Timeline):
+    """A timeline written by a user (the public ABC): fetch() is declared to return an Iterable, so it
+    may hand back a list, a tuple or a one-shot iterator as well as a generator."""
+
+    def __init__(self, inner, kind):
+        self._inner, self._kind = inner, kind
+
+    def fetch(self, start, end, *, reverse=False):
+        res = list(self._inner.fetch(start, end, reverse=reverse))
+        return res if self._kind == "list" else tuple(res) if self._kind == "tuple" else iter(res)
+
+
 def _build_top(t, env=None, leaf_hook=None, _memo=None):
     """Build the real calgebra object.  Equal sub-expressions (in particular equal stored leaves) are
     ONE Python object — users reuse timeline objects: `(a & b) & (a & c)`, `free = work - busy;
@@ -208,6 +220,8 @@ def _build1(t, env, leaf_hook, memo):
     op = t["op"]
     if op == "stored":
         tl = timeline(*[mk_event(e, env) for e in t["evs"]])
+        if t.get("impl"):
+            tl = _UserTimeline(tl, t["impl"])
         return leaf_hook(tl, t) if leaf_hook else tl
     if op == "or":
         return build(t["l"], env, leaf_hook) | build(t["r"], env, leaf_hook)
@@ -376,6 +390,7 @@ class Gen:
         self.m = m
         self.max_ev = max_ev
         self.next_id = 1
+        self.off = 0          # the universe of a case is off .. off+m (chosen per case in leaf())
 
     def fresh(self):
         i = self.next_id
@@ -384,14 +399,18 @@ class Gen:
 
     def span(self, unb=0.12):
         r = self.rng
-        s = None if r.random() < unb else r.randrange(0, self.m)
-        e = None if r.random() < unb else r.randrange((s if s is not None else 0) + 1, self.m + 1)
+        o = self.off
+        s = None if r.random() < unb else r.randrange(o, o + self.m)
+        e = None if r.random() < unb else r.randrange((s if s is not None else o) + 1, o + self.m + 1)
         return s, e
 
     def leaf(self, mode=None, rich=None):
         r = self.rng
         if self.next_id == 1:
             self.made = []
+            # a universe straddling or below zero: 0 and -1 are the values code is tempted to use as
+            # 'nothing yet' markers, and no test places an event or a window edge there
+            self.off = 0 if r.random() < 0.65 else r.randrange(-self.m - 1, 0)
         made = getattr(self, "made", [])
         if made and r.random() < 0.07:
             # the same timeline object used twice in one expression (same events, same ids)
@@ -407,7 +426,7 @@ class Gen:
         n = r.choice([0, 1, 1, 2, 2, 3, 3, self.max_ev])
         spans = []
         if mode == "disjoint" or mode == "touch":
-            pts = sorted(r.sample(range(0, self.m + 1), min(self.m + 1, 2 * n))) if n else []
+            pts = sorted(r.sample(range(self.off, self.off + self.m + 1), min(self.m + 1, 2 * n))) if n else []
             if mode == "touch" and len(pts) >= 3:
                 spans = [(pts[i], pts[i + 1]) for i in range(0, len(pts) - 1)][:n]
             else:
@@ -421,8 +440,8 @@ class Gen:
                 spans.append(self.span())
             if spans:
                 s, e = spans[0]
-                lo = s if s is not None else 0
-                hi = e if e is not None else self.m
+                lo = s if s is not None else self.off
+                hi = e if e is not None else self.off + self.m
                 if hi - lo >= 2:
                     spans.append((lo + 1, hi - 1) if hi - lo > 2 else (lo, hi - 1))
         elif mode == "dup":
@@ -437,7 +456,10 @@ class Gen:
         evs = []
         for (s, e) in spans:
             evs.append([s, e, self.fresh() if rich else None])
-        return {"op": "stored", "evs": evs}
+        lf = {"op": "stored", "evs": evs}
+        if r.random() < 0.12:
+            lf["impl"] = r.choice(["list", "list", "tuple", "iter"])     # a user-written Timeline class
+        return lf
 
     def tree(self, depth, ops, leaf_mode=None, rich=None):
         t = self._tree(depth, ops, leaf_mode, rich)
@@ -495,7 +517,7 @@ class Gen:
             lvs = list(plain_leaves(t))
             if lvs:
                 lf = self.rng.choice(lvs)
-                x = self.rng.randrange(0, self.m + 1)
+                x = self.rng.randrange(self.off, self.off + self.m + 1)
                 rich = not any(e[2] is None for e in lf["evs"])      # (an empty leaf may sit under a field filter)
                 lf["evs"].insert(self.rng.randrange(len(lf["evs"]) + 1), [x, x, self.fresh() if rich else None])
         return t
@@ -505,12 +527,13 @@ class Gen:
         k = r.random()
         if k < 0.08:
             return None, None
+        o = self.off
         if k < 0.18:
-            return None, r.randrange(0, self.m + 2)
+            return None, r.randrange(o, o + self.m + 2)
         if k < 0.28:
-            return r.randrange(-1, self.m + 1), None
-        a = r.randrange(-1, self.m + 1)
-        b = r.randrange(a + 1, self.m + 3)
+            return r.randrange(o - 1, o + self.m + 1), None
+        a = r.randrange(o - 1, o + self.m + 1)
+        b = r.randrange(a + 1, o + self.m + 3)
         return a, b
 
     def value(self, kind):
@@ -537,7 +560,7 @@ class Gen:
             if p[0] == "dur" and p[1] == 60:
                 v = ["int", r.choice([0, 1])]
             else:
-                v = ["int", r.randrange(-1, self.m + 2)]
+                v = ["int", r.randrange(-1, self.m + 2) + (self.off if p[0] != "dur" else 0)]
             return {"k": "cmp", "p": p, "c": r.choice(["ge", "le", "gt", "lt", "eq", "ne"]), "v": v}
         if k < 0.5:
             return {"k": "cmp", "p": ["field", "prio"] + (["callable"] if r.random() < 0.4 else []), "c": r.choice(["eq", "ne"]),
